@@ -20,6 +20,8 @@ RUNS = [
     {"name": "build-a-ok", "args": ["-c", "build", "-t", "a"], "pairs": [("build", "a")]},
     {"name": "test-b-ok", "args": ["-c", "test", "-t", "b"], "pairs": [("test", "b")]},
     {"name": "lint-ab-b-fails", "args": ["-c", "lint", "-t", "a", "b"], "pairs": [("lint", "a"), ("lint", "b")]},
+    # no explicit targets, a checkpoint exists and nothing changed since: a completed run of nothing
+    {"name": "empty-nothing-changed", "args": ["-c", "build"], "pairs": []},
 ]
 SCRIPTS = {
     ("build", "a"): (["out " + "build of a line 1\n".encode().hex(), "out " + "build of a line 2\n".encode().hex(), "exit 0"],
@@ -34,7 +36,10 @@ HEADER = re.compile(rb"^\[monorail \| (?:\x1b\[[0-9;]*m)?(stdout\.zst|stderr\.zs
 
 def make_repo(s, maxr):
     cmds = {"a": {"build": "x", "lint": "x"}, "b": {"test": "x", "lint": "x"}}
-    r = sc.Repo(s, "r", TARGETS, commands=cmds, max_retained_runs=maxr, init_git=False)
+    # Monorail.json (which carries per-scratch ports) is kept out of git so that HEAD, and with it the
+    # checkpoint id stored in the copied output directory, is the same in every scratch repository
+    r = sc.Repo(s, "r", TARGETS, commands=cmds, max_retained_runs=maxr, init_git=True,
+                files={".gitignore": "monorail-out\nMonorail.json\n"})
     for (c, t), (lines, _, _) in SCRIPTS.items():
         r.set_script(t, c, lines)
     return r
@@ -170,6 +175,9 @@ def transition(task):
         r = make_repo(s, maxr)
         if parent_key is not None:
             shutil.copytree(os.path.join(store, parent_key), r.out_dir())
+        else:
+            if r.mr("checkpoint", "update").code != 0:
+                raise common.EngineError("checkpoint update failed")
         run = RUNS[ri]
         res = r.mr("run", *run["args"], env=r.trace_env())
         doc = res.json()
@@ -256,7 +264,7 @@ def run(prop, tier):
     agg["violation_count"] = len(agg["violations"])
     agg["violations"] = sorted(agg["violations"], key=lambda v: v["rank"])[:100]
     return agg, ["only runs that complete (exit 0 or 1 with a result document) are in the alphabet (DESIGN observation O1)",
-                 "runs use explicit targets, so git is not consulted"]
+                 "three runs use explicit targets; the fourth is a change-detected run that resolves to zero targets (a checkpoint exists from the start and nothing changes)"]
 
 
 def replay(prop, path):
